@@ -150,12 +150,7 @@ Theorem C09_collapse_guard_old_rule_refuted :
     prob (run no_law p n st0) (stopped p) <> 0%Qc /\
     cond_exp (run no_law p n st0) (stopped p) f <>
     cond_exp (run no_law p n st0) (fun s => negb (holds (stored_guard_old 2 p) s)) f.
-Proof.
-  exists collapse_witness, (fun s => s "x"), 3%nat. split; [|split].
-  - vm_compute. discriminate.
-  - vm_compute. discriminate.
-  - vm_compute. discriminate.
-Qed.
+Proof. exact collapse_guard_old_rule_refuted. Qed.
 Print Assumptions C09_collapse_guard_old_rule_refuted.
 
 Example C09_collapse_witness_values :
